@@ -1,6 +1,7 @@
-\* what the code does: the legacy writer on a plain io.Writer; TLC is expected to report ModelEos violated
+\* the originally pinned code (before the repair ada877e): the legacy writer on a plain io.Writer closes without an
+\* EOS page; TLC is expected to report ModelEos violated (documented counterexample, not the current code)
 CONSTANTS
-  Impl = "asis"
+  Impl = "pinned"
   Apis = {"NewWith"}
   MaxTracks = 2
   MaxPackets = 1
